@@ -18,6 +18,11 @@ LIB.update(_W.LIB)
 LEMMAS = ["Partition.lean"]
 
 
+# the plumbing this property's claim runs through (contracts/chain.py): listed here too, so that a change inside it is caught by THIS check
+from . import chain as CH   # noqa: E402
+CH.extend(CONTRACTS, CH.readers() + CH.plumbing() + CH.tables() + CH.wrapper())
+
+
 def EXTRA():
     # the public entry point hands its options (how many prior samples to use, how many posterior samples to keep, ...) to the function that
     # does the work, on both paths
